@@ -141,6 +141,10 @@ def main(argv):
                 for d in replay_payload.get("correspondence_disagreements", []):
                     mod.replay(ctx, core.unjson(d["case"]))
             return finish(ctx, audit, mod, t0)
+        # the exploration budget starts now: how long the Lean build and the axiom audit took (minutes on a cold
+        # machine, a second on a warm one) must not decide how much of the input space a run covers
+        ctx.note("setup_s", round(time.time() - ctx.t0, 2))
+        ctx.t0 = time.time()
         mod.run(ctx)
         run_known_witnesses(ctx, mod)
         return finish(ctx, audit, mod, t0)
